@@ -120,12 +120,14 @@ def observe(xmlschema, schema, make_resource, api, depth):
         out = schema.to_objects(r, validation='lax')
         obj = out[0] if isinstance(out, tuple) else out
         return obj_sig(obj) if obj is not None else None
-    if api in ('find_named', 'find_deep', 'errors_named', 'decode_named'):
+    if api in ('find_named', 'find_deep', 'find_positional', 'errors_named', 'decode_named'):
         # named paths (not wildcard-only): one step = the lazy depth, two steps = deeper than it
         path, ns = named_paths(r)[0 if api != 'find_deep' else 1]
         if path is None:
             return None
-        if api in ('find_named', 'find_deep'):
+        if api == 'find_positional':
+            path += '[2]'
+        if api in ('find_named', 'find_deep', 'find_positional'):
             return [(e.tag, tuple(sorted(e.attrib.items()))) for e in r.iterfind(path, namespaces=ns)]
         if api == 'errors_named':
             return [clean_reason(e.reason) for e in schema.iter_errors(r, path=path, namespaces=ns)]
@@ -190,7 +192,8 @@ def innermost_function(exc):
     return None
 
 
-APIS = ('is_valid', 'iter_errors', 'decode_lax', 'iter', 'iter_depth', 'iterfind', 'find_named', 'find_deep', 'errors_named', 'decode_named')
+APIS = ('is_valid', 'iter_errors', 'decode_lax', 'iter', 'iter_depth', 'iterfind', 'find_named', 'find_deep', 'find_positional',
+        'errors_named', 'decode_named')
 
 
 def eager_iter_depth(xmlschema, text, depth):
@@ -262,6 +265,8 @@ def compare_document(res, xmlschema, schema, text, tag, case, rng, tier, scratch
                             res.count('depth1:agree')
                         else:
                             mech = f'lazy-differs:{api}'
+                            if api == 'find_positional' and thin:
+                                mech = 'thin-lazy-positional-predicate-counts-only-siblings-still-in-memory'
                             if api == 'decode_lax' and got[:2] == eager[api][:2]:
                                 missing = [r for r in eager[api][2] if r not in got[2]]
                                 extra = [r for r in got[2] if r not in eager[api][2]]
